@@ -116,6 +116,9 @@ structure CliCmd where
   varargs : List Bool           -- per positional arg
   optional : List Bool
   conditional : Bool            -- appended only under `if keeper.EnableAddAllowedBidder`
+  flagFields : List String := []    -- proto fields configured through `FlagOptions`
+  flagDefaults : List String := []  -- … of which those given a `DefaultValue` (sent although nothing was typed)
+  otherKeys : List String := []     -- `RpcCommandOptions` keys not known to be cosmetic
   deriving DecidableEq, Repr
 
 structure RpcDesc where
@@ -170,5 +173,13 @@ def CliCmd.resolves (c : CliCmd) (rpcs : List RpcDesc) : Bool :=
      && c.args.all (fun a => a.2 || !r.repeated.contains a.1)
      -- what the usage line tells the user to type, in order, is what each argument is bound to
      && usePlaceholderNames c.use == c.positional.map String.toList)
+
+/-- the flags of a command send only what the user types: every configured flag names a field
+    of the request, none has a default value of its own, and the command uses no option whose
+    effect on the request this table does not capture -/
+def CliCmd.flagsFaithful (c : CliCmd) (rpcs : List RpcDesc) : Bool :=
+  match rpcs.find? (fun r => r.service == c.service && r.rpc == c.rpc) with
+  | none => false
+  | some r => c.flagFields.all (fun f => r.fields.contains f) && c.flagDefaults.isEmpty && c.otherKeys.isEmpty
 
 end Fundraising.Tables
